@@ -10,6 +10,39 @@ class AnalysisError(Exception):
     """anchor vanished / unsupported construct / floor not met -> exit 2, never a silent pass"""
 
 
+class _LowerIfExp(ast.NodeTransformer):
+    """normalisation: `x = A if C else B` and `return A if C else B` inside functions become if-statements, so the path rules
+    see one form (behaviour-preserving: the test is evaluated once, then exactly one arm)"""
+    def __init__(self):
+        self.depth = 0
+
+    def visit_FunctionDef(self, node):
+        self.depth += 1
+        self.generic_visit(node)
+        self.depth -= 1
+        return node
+    visit_AsyncFunctionDef = visit_FunctionDef
+
+    def _split(self, node, mk):
+        v = node.value
+        body, orelse = mk(v.body), mk(v.orelse)
+        for x in (body, orelse):
+            ast.copy_location(x, node)
+        new = ast.copy_location(ast.If(test=v.test, body=[self.visit(body)], orelse=[self.visit(orelse)]), node)
+        new._lowered_ifexp = True
+        return new
+
+    def visit_Assign(self, node):
+        if self.depth and isinstance(node.value, ast.IfExp) and len(node.targets) == 1 and isinstance(node.targets[0], ast.Name):
+            return self._split(node, lambda val: ast.Assign(targets=[A.clone(node.targets[0])], value=val, type_comment=None))
+        return node
+
+    def visit_Return(self, node):
+        if self.depth and isinstance(node.value, ast.IfExp):
+            return self._split(node, lambda val: ast.Return(value=val))
+        return node
+
+
 class Module:
     def __init__(self, name, path, relpath, text):
         self.name = name
@@ -21,6 +54,7 @@ class Module:
             self.tree = ast.parse(text, filename=path)
         except SyntaxError as e:
             raise AnalysisError("cannot parse %s: %s" % (relpath, e))
+        _LowerIfExp().visit(self.tree)
         A.set_parents(self.tree)
         for n in ast.walk(self.tree):
             n._module = self
